@@ -26,6 +26,7 @@ import (
 	"github.com/avos-io/goat/gen/goatorepo"
 	"github.com/avos-io/goat/internal/verifhook"
 	"google.golang.org/protobuf/proto"
+	"google.golang.org/protobuf/types/known/anypb"
 )
 
 const pxProxyName = 99
@@ -112,6 +113,8 @@ type PAct struct {
 	// deliver: the proxy context is cancelled while the forwarding loop is inside this envelope's forward
 	// (from the interceptor); if the envelope never gets there, at the end of the step
 	CancelOn bool `json:"cancelon,omitempty"`
+	// deliver: which sub-messages the envelope carries besides the header (pxShape); 0 = a body with the token
+	Shape int `json:"shape,omitempty"`
 }
 
 type pxScenario struct {
@@ -212,8 +215,66 @@ type pxRig struct {
 	discs    []string
 	crash    bool
 	orig     map[int64]*Rpc
+	byId     map[uint64]int64
 	lastDrop int64
 	nDel     uint64
+}
+
+// pxShape gives an envelope its content besides the routing fields: every combination of present / absent
+// sub-messages the protocol has. shape = body + 4*status + 12*trailer + 36*reset + 144*headers:
+//
+//	body    0 data = token payload | 1 no Body | 2 Body with empty data | 3 large data (64 KiB)
+//	status  0 none | 1 code only | 2 code, message and details
+//	trailer 0 none | 1 empty Trailer | 2 Trailer with metadata
+//	reset   0 none | 1 RST_STREAM | 2 Reset with empty type | 3 Reset of another type
+//	headers 0 none | 1 request headers (metadata)
+const pxNumShapes = 4 * 3 * 3 * 4 * 2
+
+func pxShape(rpc *Rpc, shape int, tok int64) {
+	if shape < 0 {
+		shape = -shape
+	}
+	shape %= pxNumShapes
+	switch shape % 4 {
+	case 0:
+		rpc.Body = &goatorepo.Body{Data: payloadOf(tok)}
+	case 1:
+		rpc.Body = nil
+	case 2:
+		rpc.Body = &goatorepo.Body{}
+	case 3:
+		big := make([]byte, 64<<10)
+		x := uint64(tok)
+		for i := range big {
+			x = x*6364136223846793005 + 1442695040888963407
+			big[i] = byte(x >> 56)
+		}
+		rpc.Body = &goatorepo.Body{Data: big}
+	}
+	switch shape / 4 % 3 {
+	case 1:
+		rpc.Status = &goatorepo.ResponseStatus{Code: int32(tok % 17)}
+	case 2:
+		rpc.Status = &goatorepo.ResponseStatus{Code: 9, Message: fmt.Sprintf("status of %d", tok),
+			Details: []*anypb.Any{{TypeUrl: "type.googleapis.com/x.Y", Value: payloadOf(tok + 1)}, {TypeUrl: "t", Value: nil}}}
+	}
+	switch shape / 12 % 3 {
+	case 1:
+		rpc.Trailer = &goatorepo.Trailer{}
+	case 2:
+		rpc.Trailer = &goatorepo.Trailer{Metadata: []*goatorepo.KeyValue{{Key: "k", Value: fmt.Sprint(tok)}, {Key: "k-bin", Value: "AAEC"}, {Key: "k", Value: ""}}}
+	}
+	switch shape / 36 % 4 {
+	case 1:
+		rpc.Reset_ = &goatorepo.Reset{Type: "RST_STREAM"}
+	case 2:
+		rpc.Reset_ = &goatorepo.Reset{}
+	case 3:
+		rpc.Reset_ = &goatorepo.Reset{Type: "GOAWAY"}
+	}
+	if shape/144%2 == 1 && rpc.Header != nil {
+		rpc.Header.Headers = []*goatorepo.KeyValue{{Key: "grpc-timeout", Value: "5S"}, {Key: "x", Value: fmt.Sprint(tok)}}
+	}
 }
 
 func blankRouting(r *Rpc) *Rpc {
@@ -242,8 +303,10 @@ func (r *pxRig) envOf(x *Rpc) pxEnv {
 	}
 	e := pxEnv{Hdr: true, Src: pxTok(x.Header.Source), Dst: pxTok(x.Header.Destination), Rec: tokList(x.Header.ProxyRecord),
 		HasN: x.Header.ProxyNext != nil, Next: tokList(x.Header.ProxyNext), Pay: -777}
-	if x.GetBody() != nil {
-		v := tokenOf(x.GetBody().GetData())
+	// the envelope is identified by its id (the harness's are unique); the token is reported only when the WHOLE
+	// envelope - id, method, headers, source, status, body, trailer, reset - equals the original but for the three
+	// routing fields (destination, route record, return route)
+	if v, ok := r.byId[x.Id]; ok {
 		if o, ok := r.orig[v]; ok && proto.Equal(blankRouting(o), blankRouting(x)) {
 			e.Pay = v
 		}
@@ -303,7 +366,8 @@ func (r *pxRig) do(a PAct) string {
 			h.Method = pxCancelMethod
 			r.cancelW = true
 		}
-		rpc := &Rpc{Id: 1000 + r.nDel, Header: h, Body: &goatorepo.Body{Data: payloadOf(a.V)}}
+		rpc := &Rpc{Id: 1000 + r.nDel, Header: h}
+		pxShape(rpc, a.Shape, a.V)
 		switch a.Bad {
 		case "nohdr":
 			rpc.Header = nil
@@ -314,6 +378,7 @@ func (r *pxRig) do(a PAct) string {
 		}
 		if rpc != nil {
 			r.orig[a.V] = clone(rpc)
+			r.byId[rpc.Id] = a.V
 		}
 		rec.ep.Deliver(rpc)
 		if a.CancelOn {
@@ -414,6 +479,7 @@ func (r *pxRig) start() {
 	r.cancel = cancel
 	r.ctx = ctx
 	r.orig = map[int64]*Rpc{}
+	r.byId = map[uint64]int64{}
 	icp := pxInterceptor(r.sc.Icp)
 	if icp != nil {
 		inner := icp
